@@ -36,10 +36,12 @@ class GraphConfigImpl:
         Generate relative path for a node
         """
 
-        while getattr(node, '__generic_class__', None) is not None:
+        # Only a class created by build_node is described by the class it has been built from
+        while vars(node).get('__generic_class__') is not None:
             node = node.__generic_class__
 
         file_path = '/'.join(node.__module__.split('.'))
+
         line_number = inspect.getsourcelines(node)[-1]
         return f'{file_path}.py#L{line_number}'
 
